@@ -87,6 +87,21 @@ def field_selectors(names, keys, rng, budget):
                         list(range(nf))[slice(c[-1], None if c[0] == 0 else c[0] - 1, -1)], False))
             out.append((f"unordnames", [keys[i] for i in d], d, False))
             out.append((f"neglist:{[i - nf for i in c]}", [i - nf for i in c], list(c), False))
+    # lists that are not ascending although their last element is not below the first (a check of the
+    # end points alone lets them through): an interior element below the first, a reversed interior, shuffled
+    for _ in range(6):
+        if nf < 3:
+            break
+        k = rng.randint(3, min(nf, 5))
+        base = sorted(rng.sample(range(nf), k))
+        variants = [[base[1], base[0]] + base[2:], rng.sample(base, k)]
+        if k >= 4:
+            variants.append([base[0]] + list(reversed(base[1:-1])) + [base[-1]])
+        for u in variants:
+            if u == sorted(u):
+                continue
+            out.append((f"unordlist:{u}", u, u, False))
+            out.append((f"unordnames:{u}", [keys[i] for i in u], u, False))
     out.append(("negstep:all", slice(None, None, -1), list(range(nf))[::-1], False))
     mask = [rng.random() < 0.5 for _ in range(nf)]
     if any(mask):
